@@ -5,5 +5,5 @@ CONSTANTS
   MaxX = 4
   Half = 128
   MaxBigW = 20
-  Mutant = "le_width"
+  Mutant = "repeat_only"
 INVARIANTS FlagSound CornersSuffice SplitExact SplitTotal WidthSound
